@@ -145,8 +145,15 @@ func (l *vlistener) Close() error {
 	ep := l.ep
 	ep.mu.Lock()
 	l.closed = true
+	// connections that were queued but never accepted are reset, as a kernel does when the
+	// listening socket is closed
+	pending := ep.backlog
+	ep.backlog = nil
 	ep.cv.Broadcast()
 	ep.mu.Unlock()
+	for _, h := range pending {
+		_ = h.peer.Close()
+	}
 	return nil
 }
 
